@@ -375,7 +375,7 @@ func findOnceInits(p *Program, eff *Effects, fns []*ssa.Function) []onceInit {
 					if pkgPath != onceG.Pkg.Pkg.Path() {
 						continue
 					}
-					if g, ok := onceG.Pkg.Members[gname].(*ssa.Global); ok && g != onceG {
+					if g, ok := onceG.Pkg.Members[gname].(*ssa.Global); ok && g != onceG && !isSyncPrimitive(g.Type()) {
 						out = append(out, onceInit{g, onceG, initFn})
 					}
 				}
@@ -1382,10 +1382,12 @@ func indexLints(c *Ctx, p *Program, pkgPats ...string) {
 	reportFindings(c, p, rule2, nil, hits2, "")
 	c.Ob(rule2, "-", "-", "field-stores-scanned", "-", true, "")
 	rule3 := c.Prop + ".chunkrem"
-	c.Rule(rule3, "CHUNK-REMAINDER: a loop that starts one goroutine per chunk, runs n/size times (floor division) and rebuilds positions as k*size treats the remainder somewhere (n % size, a ceiling division, a clamp of the end position against n, a tail slice): otherwise the last partial chunk is never processed when n is not a multiple of size", 0)
+	c.Rule(rule3, "CHUNK-REMAINDER: a loop that starts one goroutine per chunk, runs n/size times (floor division) and rebuilds positions as k*size treats the remainder somewhere (n % size, a ceiling division, a clamp of the end position against n, a tail slice): otherwise the last partial chunk is never processed when n is not a multiple of size; likewise a stride loop `for i := a; i+k <= n; i += k` that spawns a goroutine per stride looks at n again (clamp, tail, remainder)", 0)
 	var hits3 []Finding
 	for _, fn := range fns {
 		_, h := chunkRemainderDropped(p, fn)
+		hits3 = append(hits3, h...)
+		_, h = strideRemainderDropped(p, fn)
 		hits3 = append(hits3, h...)
 	}
 	c.Instance(rule3, total)
@@ -1403,4 +1405,13 @@ func indexLints(c *Ctx, p *Program, pkgPats ...string) {
 	c.Instance(rule4, k4)
 	reportFindings(c, p, rule4, nil, hits4, "")
 	c.Ob(rule4, "-", "-", "call-sites-compared", "-", true, "")
+}
+
+// isSyncPrimitive: a sync.Once / Mutex / RWMutex / WaitGroup / Map / Pool (or pointer to one): not
+// data that is "initialised" by being used.
+func isSyncPrimitive(t types.Type) bool {
+	if pt, ok := t.(*types.Pointer); ok {
+		t = pt.Elem()
+	}
+	return namedPkg(t) == "sync" || namedPkg(t) == "sync/atomic"
 }
